@@ -11,41 +11,44 @@
 (***************************************************************************)
 EXTENDS Wire, TLC, Json
 
-VARIABLES l, cfg, cur, call, wireOK, parsed, responded, served, stats
-tvars == <<l, cfg, cur, call, wireOK, parsed, responded, served, stats>>
+VARIABLES l, cfg, cur, call, wireOK, parsed, responded, served, stats, bad
+tvars == <<l, cfg, cur, call, wireOK, parsed, responded, served, stats, bad>>
 Trace == ndJsonDeserialize("trace.ndjson")
 Ev    == Trace[l]
 Is(e) == l <= Len(Trace) /\ Ev.ev = e
 
 None == [has |-> FALSE]
+\* bad.req: a request half (Wire / Parse) of the current call was rejected; bad.nullBody: its wire body was `null`
+NotBad == [req |-> FALSE, nullBody |-> FALSE]
 Init == /\ l = 1 /\ cfg = [base |-> << >>, ops |-> << >>] /\ cur = "" /\ call = None /\ wireOK = FALSE /\ parsed = None
-        /\ responded = None /\ served = None /\ stats = [accepted |-> 0, nontrivial |-> 0, rejected |-> 0]
+        /\ responded = None /\ served = None /\ stats = [accepted |-> 0, nontrivial |-> 0, rejected |-> 0] /\ bad = NotBad
 
 Config == /\ Is("Config") /\ cfg' = [base |-> Ev.base, ops |-> Ev.ops]
-          /\ l' = l + 1 /\ UNCHANGED <<cur, call, wireOK, parsed, responded, served, stats>>
+          /\ l' = l + 1 /\ UNCHANGED <<cur, call, wireOK, parsed, responded, served, stats, bad>>
 OpOf(id) == CHOOSE o \in SeqToSet(cfg.ops) : o.id = id
 SupF(sq) == [ k \in { sq[i].key : i \in DOMAIN sq } |-> (CHOOSE e \in SeqToSet(sq) : e.key = k).lex ]
 
 Call == /\ Is("Call") /\ \E o \in SeqToSet(cfg.ops) : o.id = Ev.op
         /\ cur' = Ev.case /\ call' = [has |-> TRUE, op |-> Ev.op, sent |-> Ev.sent, inject |-> Ev.inject]
-        /\ wireOK' = FALSE /\ parsed' = None /\ responded' = None /\ served' = None
+        /\ wireOK' = FALSE /\ parsed' = None /\ responded' = None /\ served' = None /\ bad' = NotBad
         /\ l' = l + 1 /\ UNCHANGED <<cfg, stats>>
 
 \* C09 second half: the request on the wire is valid for the operation
 WireEv == /\ Is("Wire") /\ call.has
           /\ WireValid(cfg.base, OpOf(call.op), Ev, SupF(Ev.sup))
           /\ wireOK' = TRUE
-          /\ l' = l + 1 /\ UNCHANGED <<cfg, cur, call, parsed, responded, served, stats>>
+          /\ l' = l + 1 /\ UNCHANGED <<cfg, cur, call, parsed, responded, served, stats, bad>>
 
 \* C09 first half: the handler parses exactly what was sent
-ParseEv == /\ Is("Parse") /\ call.has /\ wireOK
+\* (each event is judged on its own: a rejected event does not hide the later events of the same call)
+ParseEv == /\ Is("Parse") /\ call.has
            /\ Ev.ok /\ VEq(call.sent, Ev.params)
            /\ parsed' = [has |-> TRUE]
-           /\ l' = l + 1 /\ UNCHANGED <<cfg, cur, call, wireOK, responded, served, stats>>
+           /\ l' = l + 1 /\ UNCHANGED <<cfg, cur, call, wireOK, responded, served, stats, bad>>
 
 RespondEv == /\ Is("Respond") /\ call.has
              /\ responded' = [has |-> TRUE, type |-> Ev.type, value |-> Ev.value]
-             /\ l' = l + 1 /\ UNCHANGED <<cfg, cur, call, wireOK, parsed, served, stats>>
+             /\ l' = l + 1 /\ UNCHANGED <<cfg, cur, call, wireOK, parsed, served, stats, bad>>
 
 \* C02 write half: the status is a documented one (the caller's code for default) and the response is written as documented
 ServerDone == /\ Is("ServerDone") /\ call.has /\ responded.has
@@ -55,12 +58,12 @@ ServerDone == /\ Is("ServerDone") /\ call.has /\ responded.has
                    /\ (Ev.isDefault => Ev.status = Ev.code)
                    /\ WriteOK(RespOf(op, st), responded.value, Ev)
               /\ served' = [has |-> TRUE, status |-> Ev.statusText]
-              /\ l' = l + 1 /\ UNCHANGED <<cfg, cur, call, wireOK, parsed, responded, stats>>
+              /\ l' = l + 1 /\ UNCHANGED <<cfg, cur, call, wireOK, parsed, responded, stats, bad>>
 
 \* C10: the caller receives the response the handler produced / the right kind for an undocumented status
 Return == /\ Is("Return") /\ call.has /\ Ev.panic = ""
           /\ IF call.inject = 0
-             THEN /\ parsed.has /\ responded.has /\ served.has
+             THEN /\ responded.has
                   /\ Ev.ok /\ Ev.type = responded.type /\ VEq(responded.value, Ev.value)
              ELSE LET want == ClientOutcome(OpOf(call.op), Ev.injectText) IN
                   CASE want = "error"   -> ~Ev.ok
@@ -68,9 +71,15 @@ Return == /\ Is("Return") /\ call.has /\ Ev.panic = ""
                     [] OTHER            -> Ev.ok /\ ~Ev.isDefault
           /\ stats' = [stats EXCEPT !.accepted = @ + 1, !.nontrivial = @ + 1]
           /\ call' = None
-          /\ l' = l + 1 /\ UNCHANGED <<cfg, cur, wireOK, parsed, responded, served>>
+          /\ l' = l + 1 /\ UNCHANGED <<cfg, cur, wireOK, parsed, responded, served, bad>>
+\* after a rejected request half (Wire / Parse) the handler may never have answered: what the server wrote then and
+\* what the caller got is the consequence of that rejection, not a separate judgement
+Drain == /\ l <= Len(Trace) /\ Ev.ev \in {"ServerDone", "Return"} /\ call.has /\ bad.req /\ ~responded.has
+         /\ (Ev.ev = "Return" => call.inject = 0)          \* (an injected status is judged by Return whatever came before)
+         /\ call' = IF Ev.ev = "Return" THEN None ELSE call
+         /\ l' = l + 1 /\ UNCHANGED <<cfg, cur, wireOK, parsed, responded, served, stats, bad>>
 
-Step == Config \/ Call \/ WireEv \/ ParseEv \/ RespondEv \/ ServerDone \/ Return
+Step == Config \/ Call \/ WireEv \/ ParseEv \/ RespondEv \/ ServerDone \/ Return \/ Drain
 
 RECURSIVE NextBoundary(_)
 NextBoundary(k) == IF k > Len(Trace) THEN k ELSE IF Trace[k].ev \in {"Call", "Config"} THEN k ELSE NextBoundary(k + 1)
@@ -79,20 +88,26 @@ NextBoundary(k) == IF k > Len(Trace) THEN k ELSE IF Trace[k].ev \in {"Call", "Co
 \* known findings: a nil Go slice as top-level (inline) array body is written as `null` by the client / by writeJSON
 KF == IF call.has /\ OpOf(call.op).bodyVia = "componentInlineObject" /\ Ev.ev \in {"Wire", "Parse"} THEN "c09-component-body-inline-object"
       ELSE IF call.has /\ Ev.ev = "Wire" /\ OpOf(call.op).body.k = "json" /\ OpOf(call.op).body.s.k = "array" /\ Ev.body.t = "null" THEN "c09-nil-array-body-null"
+      ELSE IF call.has /\ Ev.ev = "Parse" /\ bad.nullBody /\ OpOf(call.op).body.k = "json" /\ OpOf(call.op).body.s.k = "array" THEN "c09-nil-array-body-null"
       ELSE IF call.has /\ Ev.ev = "ServerDone" /\ Ev.body.t = "null"
               /\ \E i \in DOMAIN OpOf(call.op).resps : OpOf(call.op).resps[i].body.k = "json" /\ OpOf(call.op).resps[i].body.s.k = "array" THEN "c02-nil-array-body-null"
       ELSE ""
 
+InCall == call.has /\ Ev.ev \in {"Wire", "Parse", "Respond", "ServerDone", "Return", "ServerPanic"}
 Skip == /\ l <= Len(Trace) /\ ~ENABLED Step
         /\ PrintT(ToJson([verdict |-> "REJECT", case |-> cur, at |-> l, event |-> [ev |-> Ev.ev], kf |-> KF,
                           why |-> [at |-> Ev.ev, wireOK |-> wireOK, parsed |-> parsed.has, responded |-> responded.has, served |-> served.has]]))
         /\ stats' = [stats EXCEPT !.rejected = @ + 1]
-        /\ call' = None /\ l' = NextBoundary(l + 1)
+        /\ IF InCall THEN /\ l' = l + 1
+                          /\ call' = IF Ev.ev = "Return" THEN None ELSE call
+                          /\ bad' = [req |-> bad.req \/ Ev.ev \in {"Wire", "Parse"},
+                                      nullBody |-> bad.nullBody \/ (Ev.ev = "Wire" /\ Ev.body.t = "null")]
+                     ELSE /\ l' = NextBoundary(l + 1) /\ call' = None /\ bad' = bad
         /\ UNCHANGED <<cfg, cur, wireOK, parsed, responded, served>>
 
 Finish == /\ l = Len(Trace) + 1
           /\ PrintT(ToJson([verdict |-> "END", at |-> l, accepted |-> stats.accepted, nontrivial |-> stats.nontrivial, rejected |-> stats.rejected]))
-          /\ l' = l + 1 /\ UNCHANGED <<cfg, cur, call, wireOK, parsed, responded, served, stats>>
+          /\ l' = l + 1 /\ UNCHANGED <<cfg, cur, call, wireOK, parsed, responded, served, stats, bad>>
 Next == Step \/ Skip \/ Finish
 Spec == Init /\ [][Next]_tvars
 =============================================================================
